@@ -286,18 +286,15 @@ run_io(void) {
 	int f, p;
 	for (f = 0; f < F__N; f ++)
 		for (p = 0; p < g_nunary; p ++) {
-#if C01_SCOPE == 0
-			if (g_unary[p] == &VS_EX2) { run_export(f, &VS_EX2); run_import(f, &VS_EX2); continue; }
-#endif
-			run_export(f, g_unary[p] == &VS_A4 ? &VS_A4 : g_unary[p]);
-			run_import(f, g_unary[p]);
+			TIMED(exp_name[f], run_export(f, g_unary[p].a));
+			TIMED(imp_name[f], run_import(f, g_unary[p].a));
 		}
 	for (p = 0; p < g_nunary; p ++)
-		run_naf(g_unary[p]);
+		TIMED("naf", run_naf(g_unary[p].a));
 #if C01_SCOPE == 0
-	run_jsf(&VS_EX1, &VS_EX1);
-	run_jsf(&VS_A3, &VS_A3);
+	TIMED("jsf", run_jsf(&VS_EX1, &VS_EX1));
+	TIMED("jsf", run_jsf(&VS_A3, &VS_A3));
 #else
-	run_jsf(g_small, g_small);
+	TIMED("jsf", run_jsf(g_small, g_small));
 #endif
 }
